@@ -118,12 +118,40 @@ Qed.
 
 Definition failed (a : hid * hsres) : Prop := snd a <> HsOk.
 
+(* ---- one TCP dial: the timeout is relative to the dial's own start ---- *)
+Lemma tcp_dial_outcome now Dt b : fst (tcp_dial now Dt b) = tcp_connects Dt b.
+Proof.
+  unfold tcp_dial, tcp_connects. destruct b as [d|]; [|reflexivity].
+  destruct (N.ltb_spec (now + d) (now + Dt)) as [H|H], (N.ltb_spec d Dt) as [H'|H']; try reflexivity; lia.
+Qed.
+
+Definition tcp_wait (Dt : N) (b : tcp_beh) : N := match b with Connects _ => Dt | Refused => 0 end.
+
+Lemma tcp_dial_time now Dt b ok t1 : tcp_dial now Dt b = (ok, t1) ->
+  now <= t1 /\ (ok = false -> now + tcp_wait Dt b <= t1).
+Proof.
+  unfold tcp_dial, tcp_wait. destruct b as [d|].
+  - destruct (N.ltb_spec (now + d) (now + Dt)) as [H|H]; intros [= <- <-]; split; try lia; discriminate.
+  - intros [= <- <-]. split; lia.
+Qed.
+
+Lemma handshake_time now T b o t2 : handshake now T b = (o, t2) ->
+  now <= t2 /\ (o = HsTimeout -> now + T <= t2).
+Proof.
+  unfold handshake. destruct b as [d|d|].
+  - destruct (N.ltb_spec (now + d) (now + T)) as [H|H]; intros [= <- <-]; split; try lia; discriminate.
+  - destruct (N.ltb_spec (now + d) (now + T)) as [H|H]; intros [= <- <-]; split; try lia; discriminate.
+  - intros [= <- <-]. split; lia.
+Qed.
+
 (* ---- the attempt loop ---- *)
 Section LoopP.
-  Variables (tcp : nat -> bool) (gen : nat -> N) (T : N) (peer : hid -> peer_beh).
-  Notation loop := (attempt_loop tcp gen T peer).
+  Variables (tcpd : nat -> tcp_beh) (Dt : N) (gen : nat -> N) (T : N) (peer : hid -> peer_beh).
+  Notation loop := (attempt_loop tcpd Dt gen T peer).
+  Notation tcp := (fun k => tcp_connects Dt (tcpd k)).
 
-  Lemma loop_spec order : forall k now tr wi o, loop order k now = (tr, wi, o) ->
+  Definition loop_post (order : list hid) (k : nat) (now : N) (tr : list hid) (wi : list (hid * hsres))
+             (o : outcome) (te : N) : Prop :=
     map fst wi = fps gen k tr /\
     Forall (fun a => snd a = hs_outcome T (peer (fst a))) wi /\
     match o with
@@ -132,16 +160,25 @@ Section LoopP.
     | TcpError j => exists rest, order = tr ++ rest /\ rest <> [] /\ Forall failed wi /\
                     j = (k + length tr)%nat /\ tcp j = false
     | AllFailed | NoIds => order = tr /\ Forall failed wi
-    end.
+    end /\
+    now + T * n_timeouts wi + match o with TcpError j => tcp_wait Dt (tcpd j) | _ => 0 end <= te.
+
+  Lemma loop_spec order : forall k now tr wi o te, loop order k now = (tr, wi, o, te) ->
+    loop_post order k now tr wi o te.
   Proof.
-    induction order as [|x r IH]; intros k now tr wi o; cbn [attempt_loop].
-    - intros [= <- <- <-]. cbn [map fps]. split; [reflexivity|]. split; [constructor|].
-      destruct (k =? 0)%nat; split; constructor.
-    - destruct (tcp k) eqn:Tk; cbn [negb].
-      + pose proof (handshake_outcome now T (peer (conn_id gen k x))) as HO.
-        destruct (handshake now T (peer (conn_id gen k x))) as [ho now'] eqn:HS. cbn [fst] in HO.
-        assert (REC : ho <> HsOk -> forall tr' wi' o', loop r (S k) now' = (tr', wi', o') ->
-                  (x :: tr', (conn_id gen k x, ho) :: wi', o') = (tr, wi, o) ->
+    unfold loop_post.
+    induction order as [|x r IH]; intros k now tr wi o te; cbn [attempt_loop].
+    - intros [= <- <- <- <-]. cbn [map fps n_timeouts]. split; [reflexivity|]. split; [constructor|].
+      split; [destruct (k =? 0)%nat; split; constructor|]. destruct (k =? 0)%nat; lia.
+    - pose proof (tcp_dial_outcome now Dt (tcpd k)) as Tk.
+      destruct (tcp_dial now Dt (tcpd k)) as [ok t1] eqn:TD. cbn [fst] in Tk.
+      destruct (tcp_dial_time _ _ _ _ _ TD) as [Ht1 Ht1f].
+      destruct ok.
+      + pose proof (handshake_outcome t1 T (peer (conn_id gen k x))) as HO.
+        destruct (handshake t1 T (peer (conn_id gen k x))) as [ho t2] eqn:HS. cbn [fst] in HO.
+        destruct (handshake_time _ _ _ _ _ HS) as [Ht2 Ht2t].
+        assert (REC : ho <> HsOk -> forall tr' wi' o' te', loop r (S k) t2 = (tr', wi', o', te') ->
+                  (x :: tr', (conn_id gen k x, ho) :: wi', o', te') = (tr, wi, o, te) ->
                   map fst wi = fps gen k tr /\
                   Forall (fun a => snd a = hs_outcome T (peer (fst a))) wi /\
                   match o with
@@ -150,31 +187,39 @@ Section LoopP.
                   | TcpError j => exists rest, x :: r = tr ++ rest /\ rest <> [] /\ Forall failed wi /\
                                   j = (k + length tr)%nat /\ tcp j = false
                   | AllFailed | NoIds => x :: r = tr /\ Forall failed wi
-                  end).
-        { intros Hne tr' wi' o' L [= <- <- <-]. specialize (IH (S k) now' tr' wi' o' L).
-          destruct IH as (A & B & C). cbn [map fps fst]. split; [rewrite A; reflexivity|].
+                  end /\
+                  now + T * n_timeouts wi + match o with TcpError j => tcp_wait Dt (tcpd j) | _ => 0 end <= te).
+        { intros Hne tr' wi' o' te' L [= <- <- <- <-]. specialize (IH (S k) t2 tr' wi' o' te' L).
+          destruct IH as (A & B & C & D). cbn [map fps fst]. split; [rewrite A; reflexivity|].
           split; [constructor; [cbn [fst snd]; exact HO|exact B]|].
           assert (Hf : failed (conn_id gen k x, ho)) by exact Hne.
-          destruct o' as [f|j| |].
-          - destruct C as (b & rest & x0 & wb & -> & -> & -> & Hwb & Hu).
-            exists (x :: b), rest, x0, ((conn_id gen k x, ho) :: wb). repeat split; auto.
-          - destruct C as (rest & -> & Hne' & Hb & -> & Hfalse). exists rest. cbn [length app].
-            assert (E : (S k + length tr' = k + S (length tr'))%nat) by lia.
-            repeat split; auto; rewrite <- E; exact Hfalse.
-          - destruct C as [-> Hb]. split; [reflexivity|constructor; auto].
-          - destruct C as [-> Hb]. split; [reflexivity|constructor; auto]. }
+          split.
+          - destruct o' as [f|j| |].
+            + destruct C as (b & rest & x0 & wb & -> & -> & -> & Hwb & Hu).
+              exists (x :: b), rest, x0, ((conn_id gen k x, ho) :: wb). repeat split; auto.
+            + destruct C as (rest & -> & Hne' & Hb & -> & Hfalse). exists rest. cbn [length app].
+              assert (E : (S k + length tr' = k + S (length tr'))%nat) by lia.
+              repeat split; auto; rewrite <- E; exact Hfalse.
+            + destruct C as [-> Hb]. split; [reflexivity|constructor; auto].
+            + destruct C as [-> Hb]. split; [reflexivity|constructor; auto].
+          - cbn [n_timeouts snd]. rewrite N.mul_add_distr_l.
+            destruct ho; [congruence| |specialize (Ht2t eq_refl)]; lia. }
         destruct ho.
-        * intros [= <- <- <-]. cbn [map fps fst]. split; [reflexivity|].
+        * intros [= <- <- <- <-]. cbn [map fps fst]. split; [reflexivity|].
           split; [constructor; [cbn [fst snd]; exact HO|constructor]|].
-          exists [], r, x, []. cbn [app]. split; [reflexivity|]. split; [reflexivity|]. split; [reflexivity|].
-          split; [constructor|apply conn_id_fixed].
-        * destruct (loop r (S k) now') as [[tr' wi'] o'] eqn:L. intros E.
+          split.
+          -- exists [], r, x, []. cbn [app]. split; [reflexivity|]. split; [reflexivity|]. split; [reflexivity|].
+             split; [constructor|apply conn_id_fixed].
+          -- cbn [n_timeouts snd]. lia.
+        * destruct (loop r (S k) t2) as [[[tr' wi'] o'] te'] eqn:L. intros E.
           eapply REC; [discriminate|reflexivity|exact E].
-        * destruct (loop r (S k) now') as [[tr' wi'] o'] eqn:L. intros E.
+        * destruct (loop r (S k) t2) as [[[tr' wi'] o'] te'] eqn:L. intros E.
           eapply REC; [discriminate|reflexivity|exact E].
-      + intros [= <- <- <-]. cbn [map fps]. split; [reflexivity|]. split; [constructor|].
-        exists (x :: r). cbn [app length]. rewrite Nat.add_0_r.
-        split; [reflexivity|]. split; [discriminate|]. split; [constructor|]. split; [reflexivity|exact Tk].
+      + intros [= <- <- <- <-]. cbn [map fps n_timeouts]. split; [reflexivity|]. split; [constructor|].
+        split.
+        * exists (x :: r). cbn [app length]. rewrite Nat.add_0_r.
+          split; [reflexivity|]. split; [discriminate|]. split; [constructor|]. split; [reflexivity|symmetry; exact Tk].
+        * specialize (Ht1f eq_refl). lia.
   Qed.
 End LoopP.
 
@@ -203,12 +248,13 @@ Proof.
 Qed.
 
 Section Dial.
-  Variables (ids sh : list hid) (working : option hid) (tcp : nat -> bool) (gen : nat -> N)
+  Variables (ids sh : list hid) (working : option hid) (tcpd : nat -> tcp_beh) (Dt : N) (gen : nat -> N)
             (T : N) (peer : hid -> peer_beh) (now : N).
   Hypothesis ids_nodup : NoDup ids.
   Hypothesis sh_perm : Permutation ids sh.
 
-  Notation r := (dial sh working tcp gen T peer now).
+  Notation r := (dial sh working tcpd Dt gen T peer now).
+  Notation tcp := (fun k => tcp_connects Dt (tcpd k)).
   Notation order := (prioritise sh working).
 
   Lemma order_perm : Permutation order (pool ids working).
@@ -216,18 +262,18 @@ Section Dial.
   Lemma order_nodup : NoDup order.
   Proof. eapply Permutation_NoDup; [apply Permutation_sym; apply order_perm|apply pool_nodup; exact ids_nodup]. Qed.
 
-  Lemma dial_unfold : exists tr wi o, attempt_loop tcp gen T peer order 0 now = (tr, wi, o) /\
+  Lemma dial_unfold : exists tr wi o te, attempt_loop tcpd Dt gen T peer order 0 now = (tr, wi, o, te) /\
     tried r = tr /\ wire r = wi /\ result r = o /\
-    working' r = match o with Connected i => Some i | _ => working end.
+    working' r = match o with Connected i => Some i | _ => working end /\ t_end r = te.
   Proof.
-    unfold dial. destruct (attempt_loop _ _ _ _ _ _ _) as [[tr wi] o] eqn:L.
-    exists tr, wi, o. cbn. auto.
+    unfold dial. destruct (attempt_loop _ _ _ _ _ _ _ _) as [[[tr wi] o] te] eqn:L.
+    exists tr, wi, o, te. cbn. auto 10.
   Qed.
 
   Lemma tried_prefix : exists rest, order = tried r ++ rest.
   Proof.
-    destruct dial_unfold as (tr & wi & o & L & -> & _ & _ & _). apply loop_spec in L.
-    destruct L as (_ & _ & C). destruct o as [i|j| |].
+    destruct dial_unfold as (tr & wi & o & te & L & -> & _ & _ & _ & _). apply loop_spec in L.
+    destruct L as (_ & _ & C & _). destruct o as [i|j| |].
     - destruct C as (b & rest & x & wb & -> & -> & _). exists rest. rewrite <- app_assoc. reflexivity.
     - destruct C as (rest & -> & _). exists rest. reflexivity.
     - destruct C as [-> _]. exists []. rewrite app_nil_r. reflexivity.
@@ -237,14 +283,14 @@ Section Dial.
   (* the fingerprints on the wire are those of the configured ids tried, in order *)
   Lemma dial_wire : map fst (wire r) = fps gen 0 (tried r).
   Proof.
-    destruct dial_unfold as (tr & wi & o & L & -> & -> & _ & _). apply loop_spec in L. tauto.
+    destruct dial_unfold as (tr & wi & o & te & L & -> & -> & _ & _ & _). apply loop_spec in L. unfold loop_post in L. tauto.
   Qed.
 
   (* every attempt ends the way its own fingerprint's handshake ends within the timeout:
      time spent in earlier attempts does not count against later ones *)
   Lemma dial_outcomes : Forall (fun a => snd a = hs_outcome T (peer (fst a))) (wire r).
   Proof.
-    destruct dial_unfold as (tr & wi & o & L & _ & -> & _ & _). apply loop_spec in L. tauto.
+    destruct dial_unfold as (tr & wi & o & te & L & _ & -> & _ & _ & _). apply loop_spec in L. unfold loop_post in L. tauto.
   Qed.
 
   (* tries each id at most once, and only configured ids or the working one *)
@@ -263,7 +309,7 @@ Section Dial.
   Proof.
     intros Hw. destruct tried_prefix as (rest & E). pose proof dial_wire as W.
     destruct (prioritise_spec sh w) as [_ H]. rewrite Hw in E, W. rewrite Hw. rewrite E in H.
-    destruct (tried (dial sh (Some w) tcp gen T peer now)) as [|x t]; [left; reflexivity|right].
+    destruct (tried (dial sh (Some w) tcpd Dt gen T peer now)) as [|x t]; [left; reflexivity|right].
     cbn [app hd_error] in H. injection H as ->. split; [reflexivity|]. rewrite W. reflexivity.
   Qed.
 
@@ -273,8 +319,8 @@ Section Dial.
                    Forall (fun a => would_succeed T (peer (fst a)) = false) before /\
                    working' r = Some f /\ unseeded f = false.
   Proof.
-    destruct dial_unfold as (tr & wi & o & L & _ & -> & -> & W). intros ->. apply loop_spec in L.
-    destruct L as (_ & B & (b & rest & x & wb & _ & _ & -> & Hwb & Hu)). exists wb.
+    destruct dial_unfold as (tr & wi & o & te & L & _ & -> & -> & W & _). intros ->. apply loop_spec in L.
+    destruct L as (_ & B & (b & rest & x & wb & _ & _ & -> & Hwb & Hu) & _). exists wb.
     apply Forall_app in B. destruct B as [B1 B2]. inversion B2 as [|? ? Hl _]; subst. cbn [fst snd] in Hl.
     repeat split; auto.
     - unfold would_succeed. rewrite <- Hl. reflexivity.
@@ -286,8 +332,8 @@ Section Dial.
     tcp j = false /\ length (tried r) = j /\
     Forall (fun a => would_succeed T (peer (fst a)) = false) (wire r) /\ working' r = working.
   Proof.
-    destruct dial_unfold as (tr & wi & o & L & -> & -> & -> & W). intros ->. apply loop_spec in L.
-    destruct L as (_ & B & (rest & _ & _ & Hb & -> & Hf)). repeat split; auto.
+    destruct dial_unfold as (tr & wi & o & te & L & -> & -> & -> & W & _). intros ->. apply loop_spec in L.
+    destruct L as (_ & B & (rest & _ & _ & Hb & -> & Hf) & _). repeat split; auto.
     eapply failed_not_succeed; eauto.
   Qed.
 
@@ -296,12 +342,38 @@ Section Dial.
     Permutation (tried r) (pool ids working) /\
     Forall (fun a => would_succeed T (peer (fst a)) = false) (wire r) /\ working' r = working.
   Proof.
-    destruct dial_unfold as (tr & wi & o & L & -> & -> & -> & W). apply loop_spec in L.
-    destruct L as (_ & B & C).
+    destruct dial_unfold as (tr & wi & o & te & L & -> & -> & -> & W & _). apply loop_spec in L.
+    destruct L as (_ & B & C & _).
     intros [->| ->]; destruct C as [E Hb]; (split; [rewrite <- E; apply order_perm|]);
       (split; [eapply failed_not_succeed; eauto|exact W]).
   Qed.
 
+  (* a TCP dial error against a peer that is listening means: that dial waited its whole TcpDialTimeout,
+     after every timed-out handshake waited its whole TlsHandshakeTimeout *)
+  Lemma dial_tcp_error_time j : result r = TcpError j ->
+    now + T * n_timeouts (wire r) + tcp_wait Dt (tcpd j) <= t_end r.
+  Proof.
+    destruct dial_unfold as (tr & wi & o & te & L & _ & -> & -> & _ & ->). intros ->. apply loop_spec in L.
+    destruct L as (_ & _ & _ & D). exact D.
+  Qed.
+
+  Lemma n_timeouts_obs (wi : list (hid * hsres)) :
+    Forall (fun a => snd a = hs_outcome T (peer (fst a))) wi ->
+    N.of_nat (length (filter (fun a : hid * peer_beh => timed_out T (snd a))
+                             (map (fun a : hid * hsres => (fst a, peer (fst a))) wi))) = n_timeouts wi.
+  Proof.
+    induction 1 as [|a wi Ha Hwi IH]; [reflexivity|]. cbn [map filter n_timeouts snd fst].
+    unfold timed_out at 1. rewrite <- Ha. destruct (snd a); cbn [length]; lia.
+  Qed.
+
+  (* ... and passes the observer's duration check when the peer is listening all the time *)
+  Lemma dial_time_ok : (forall k, tcpd k <> Refused) ->
+    time_ok T Dt (map (fun a : hid * hsres => (fst a, peer (fst a))) (wire r)) (is_tcp_err (result r)) true (t_end r - now) = true.
+  Proof.
+    intros Hl. unfold time_ok. destruct (result r) as [i|j| |] eqn:R; cbn [is_tcp_err andb]; try reflexivity.
+    pose proof (dial_tcp_error_time j R) as D. rewrite (n_timeouts_obs _ dial_outcomes).
+    specialize (Hl j). unfold tcp_wait in D. destruct (tcpd j); [|congruence]. apply N.leb_le. lia.
+  Qed.
   Lemma rev_snoc {A} (b : list A) i : rev (b ++ [i]) = i :: rev b.
   Proof. rewrite rev_app_distr. reflexivity. Qed.
 
@@ -356,7 +428,7 @@ Section Dial.
     rewrite FX, (nodupb_spec _ N), (subsetb_spec _ _ I). cbn [andb].
     assert (F : match working with Some w => match tried r with x :: _ => hid_eqb x w | [] => true end | None => true end = true).
     { pose proof dial_first as DF. destruct working as [w|]; [|reflexivity]. destruct (DF w eq_refl) as [->|[H _]]; [reflexivity|].
-      destruct (tried (dial sh (Some w) tcp gen T peer now)); [reflexivity|]. cbn in H. injection H as ->. apply hid_eqb_refl. }
+      destruct (tried (dial sh (Some w) tcpd Dt gen T peer now)); [reflexivity|]. cbn in H. injection H as ->. apply hid_eqb_refl. }
     replace (match working with Some w => match tried r with [] => true | x :: _ => hid_eqb x w end | None => true end) with true
       by (symmetry; destruct working; [exact F|reflexivity]).
     cbn [andb].
@@ -374,16 +446,18 @@ Section Dial.
       assert (L : forall l k, length (fps gen k l) = length l) by (induction l; intros; cbn [fps length]; auto).
       rewrite L, (Permutation_length P). apply Nat.eqb_refl.
   Qed.
+
 End Dial.
+
 
 (* The next Dial starts with the fingerprint that worked in this one: the recorded id is the
    connection's (seed included), and an id that has its seed shows the same fingerprint again. *)
-Lemma dial_next_first sh working tcp gen T peer now f sh2 tcp2 gen2 T2 peer2 now2 :
-  result (dial sh working tcp gen T peer now) = Connected f ->
-  let r2 := dial sh2 (working' (dial sh working tcp gen T peer now)) tcp2 gen2 T2 peer2 now2 in
+Lemma dial_next_first sh working tcpd Dt gen T peer now f sh2 tcpd2 Dt2 gen2 T2 peer2 now2 :
+  result (dial sh working tcpd Dt gen T peer now) = Connected f ->
+  let r2 := dial sh2 (working' (dial sh working tcpd Dt gen T peer now)) tcpd2 Dt2 gen2 T2 peer2 now2 in
   tried r2 = [] \/ hd_error (map fst (wire r2)) = Some f.
 Proof.
-  intros R. destruct (dial_connected sh working tcp gen T peer now f R) as (_ & _ & _ & _ & W & U).
-  rewrite W. cbn zeta. destruct (dial_first sh2 (Some f) tcp2 gen2 T2 peer2 now2 f eq_refl) as [H|[_ H]]; [left; exact H|right].
+  intros R. destruct (dial_connected sh working tcpd Dt gen T peer now f R) as (_ & _ & _ & _ & W & U).
+  rewrite W. cbn zeta. destruct (dial_first sh2 (Some f) tcpd2 Dt2 gen2 T2 peer2 now2 f eq_refl) as [H|[_ H]]; [left; exact H|right].
   rewrite H. rewrite conn_id_idem by exact U. reflexivity.
 Qed.
